@@ -420,8 +420,20 @@ func CheckC06(r *Report) {
 	plan := strPlanFor(r.Tier)
 	r.Rule = strRule("Oracle: for every accepted string, Get(m) equals the value the reference parser extracted for every metric m (not-defined value for omitted optional metrics).")
 	s := RunStrSpace(r, SMeaning, plan)
-	r.Distinct.Store(s.NAccepted.Load())
-	r.Bound = strBound(plan)
+	// volume phase: every canonical string of large full products of metrics is parsed in ONE process and the
+	// parsed object compared with the object built by Set (parsers that memoise by a lossy digest of the string
+	// are found by the sheer number of distinct equal-length strings)
+	vol := volumeParse(r, I40, []int{0, 1, 2, 3, 4, 5, 6, 7, 8, 9, 10, 11, 12, 13, 14, 15}, r.Tier == "thorough")
+	vol += volumeParse(r, I31, []int{0, 1, 2, 3, 4, 5, 6, 7, 8, 9, 10, 11, 12, 13}, r.Tier == "thorough")
+	vol += volumeParse(r, I30, []int{0, 1, 2, 3, 4, 5, 6, 7, 8, 9, 10, 11, 12, 13}, r.Tier == "thorough")
+	vol += volumeParse(r, I20, []int{0, 1, 2, 3, 4, 5, 6, 7, 8, 9, 10, 11, 12, 13}, r.Tier == "thorough")
+	r.SetExtra("volume_phase_strings", vol)
+	r.States.Add(vol)
+	r.Transitions.Add(vol)
+	r.Traces.Add(vol)
+	r.Evaluations.Store(r.Transitions.Load())
+	r.Distinct.Store(s.NAccepted.Load() + vol)
+	r.Bound = strBound(plan) + "; volume phase: canonical strings of full products (v4: base x E x CR x IR x AR x MAV; v3: 16,588,800 classes; v2: a 1/8 sub-lattice, all in thorough)"
 	r.Exhaustive = plan.v2Whole
 	r.Assumptions = []string{"accepted strings outside the enumerations (v3 orders beyond the listed families, v4 value combinations beyond the rotations) are outside the bound"}
 }
@@ -472,4 +484,42 @@ func CheckC18(r *Report) {
 	r.Bound = strBound(plan) + "; Get/Set: full abbreviation x value alphabets on 7 states per version"
 	r.Exhaustive = false
 	r.Assumptions = []string{"classification of single-defect strings by mc/spec/classify.go (repair-based: the string with the defect repaired is valid)"}
+}
+
+// volumeParse parses the canonical string of every state of the full product of ms and compares the result
+// with the object built through Set. Returns the number of strings.
+func volumeParse[T comparable, P Object[T]](r *Report, im *Impl[T, P], ms []int, thorough bool) int64 {
+	ver := im.Ver
+	dims := FullDims(ver, ms)
+	if ver == spec.V2 && !thorough {
+		// quick: a sub-lattice of v2 (CR, IR, AR restricted to 2 values each)
+		for j := range dims {
+			if dims[j].M >= 11 {
+				dims[j].Vals = []int8{0, int8(len(ver.Metrics[dims[j].M].Values) - 1)}
+			}
+		}
+	}
+	bg := make(spec.Assignment, len(ver.Metrics))
+	for i := range bg {
+		if !ver.Mandatory(i) {
+			bg[i] = int8(ver.NDIndex(i))
+		}
+	}
+	var n Counter
+	Iterate(im, dims, bg, 16, func(idx int, a spec.Assignment, o *T) {
+		n.Add(idx, 1)
+		str := ver.Canon(a)
+		p, err := im.Parse(str)
+		if err != nil || p == nil || *p != *o {
+			obs := fmt.Sprintf("error %v", err)
+			if p != nil {
+				obs = "object " + im.Describe(*p) + " (Vector() " + P(p).Vector() + ")"
+			}
+			strc, oc := str, *o
+			r.Violation(Case{Kind: "parse", Key: "v" + ver.Name + "/parsed-meaning/differs-from-object-built-by-Set", Expected: "object " + im.Describe(*o), Observed: obs + " on input " + str,
+				Args: map[string]any{"input": str, "preds": uint(SMeaning)}},
+				func() bool { p2, e2 := im.Parse(strc); return e2 != nil || p2 == nil || *p2 != oc })
+		}
+	}, func(idx int, a spec.Assignment, why string) {}, r.TooMany)
+	return n.Load()
 }
